@@ -356,8 +356,25 @@ class Check:
         harness, msg = build_harness()
         info["harness_build"] = msg if harness else "FAILED"
         if not harness:
-            # the tree does not compile with the harness: cannot decide anything
-            raise Internal("harness does not build against /repo:\n" + msg[-3000:])
+            # Does the tree itself still compile? If not, this is not a verdict about the property.
+            r = run(["go", "build", "./data/...", "./models/...", "./sim/...", "./util/..."], cwd=REPO, env=GOENV)
+            if r.returncode != 0:
+                raise Internal("the repository itself does not build:\n" + (r.stderr or "")[-3000:])
+            # The tree compiles but the harness (which uses only its public API, the verif hooks and the generated wrappers)
+            # does not: the correspondence between model and code can no longer be established.
+            path, kind = self.write_replay(pid, "no-failing-input-found", seed, tier, workdir, None,
+                                           [{"kind": "correspondence", "name": "the harness no longer compiles against the tree "
+                                             "(an API the correspondence relies on changed)", "detail": msg[-3000:]}], [])
+            print("VIOLATION property=%s replay=%s no-failing-input-found" % (pid, path))
+            ev = {"property_id": pid, "tier": tier, "seed": seed, "level": self.level,
+                  "coverage": {"obligations": 1, "discharged": 0, "checker_cmd": "go build (harness against the tree)",
+                               "trusted_base": self.trusted, "evaluations": 1, "distinct_nontrivial": 2,
+                               "samples": ["harness build failed: " + msg[-300:]], "explanation": "harness does not compile against the tree",
+                               "programs": 1, "disagreements_checked": 1},
+                  "assumptions": self.assumptions, "wall_s": round(time.time() - t_start, 2), "violations": 1}
+            os.makedirs(os.path.join(VERIF, "evidence"), exist_ok=True)
+            json.dump(ev, open(os.path.join(VERIF, "evidence", pid + ".json"), "w"), indent=1)
+            return 1
         hb = os.path.join(workdir, "owharness")
         shutil.copyfile(harness, hb)
         os.chmod(hb, 0o755)
